@@ -41,6 +41,14 @@ impl OpaqueTripleSet { pub uninterp spec fn view(&self) -> Set<Triple>; }
     ensures r == !old(set).view().contains(*t), final(set).view() == old(set).view().insert(*t) { unimplemented!() }
 #[verifier::external_body] fn primary_remove(set: &mut OpaqueTripleSet, t: &Triple) -> (r: bool)
     ensures r == old(set).view().contains(*t), final(set).view() == old(set).view().remove(*t) { unimplemented!() }
+#[verifier::external_body] fn primary_new() -> (r: OpaqueTripleSet)
+    ensures r.view() == Set::<Triple>::empty() { unimplemented!() }
+#[verifier::external_body] fn primary_clear(set: &mut OpaqueTripleSet)
+    ensures final(set).view() == Set::<Triple>::empty() { unimplemented!() }
+#[verifier::external_body] fn tx_buffer_new() -> (r: OpaqueTxBuffer) { unimplemented!() }
+// std: Arc::clone copies the pointer - the clone of an Arc IS that Arc (used for Vec<Arc<_>>::clone)
+#[verifier::external_body] pub proof fn axiom_arc_clone()
+    ensures forall|a: Arc<Triple>, b: Arc<Triple>| #[trigger] cloned(a, b) ==> a == b { }
 #[verifier::external_body] fn primary_elems(set: &OpaqueTripleSet) -> (r: Vec<Arc<Triple>>)
     ensures r@.no_duplicates(), forall|x: Arc<Triple>| #[trigger] r@.contains(x) <==> set.view().contains(*x) { unimplemented!() }
 // R20: `m.entry(k).or_default().push(v)` outlined; contract ASSUMED (std HashMap entry API)
@@ -68,6 +76,7 @@ pub open spec fn pattern_matches(p: TriplePattern, t: Triple) -> bool {
     && (p.predicate is None || p.predicate->0 == t.predicate)
     && (p.object is None || p.object->0 == t.object)
 }
+pub open spec fn comp_is(c: Comp, k: Term) -> spec_fn(Arc<Triple>) -> bool { |x: Arc<Triple>| comp(*x, c) == k }
 pub open spec fn pm(p: TriplePattern) -> spec_fn(Arc<Triple>) -> bool { |x: Arc<Triple>| pattern_matches(p, *x) }
 impl TriplePattern {
     @@TriplePattern::matches@@
@@ -342,6 +351,8 @@ impl RdfStore {
         && (self.object_index is Some ==> index_ok(self.object_index->0@, Comp::O, self.triples.view()))
     }
 
+    @@RdfStore::with_config@@
+
     @@RdfStore::insert@@
 
     @@RdfStore::remove@@
@@ -349,6 +360,14 @@ impl RdfStore {
     @@RdfStore::contains@@
 
     @@RdfStore::find@@
+
+    @@RdfStore::triples_with_subject@@
+
+    @@RdfStore::triples_with_predicate@@
+
+    @@RdfStore::triples_with_object@@
+
+    @@RdfStore::clear@@
 }
 
 } // verus!
@@ -378,6 +397,9 @@ def build(repo):
                    ('external_body primary_elems', 'E3/E1: `self.triples.read().iter()`: ASSUMED - a hash set enumerates each of its elements exactly once'),
                    ('external_body entry_or_default_push', 'R20: std HashMap::entry(k).or_default().push(v) appends v to the bucket of k (created if absent), other keys untouched'),
                    ('external_body Term::clone', 'E1: derived Clone of Term is structural'),
+                   ('external_body primary_new', 'E3/E1: `FxHashSet::default()` is the empty set'), ('external_body primary_clear', 'E3/E1: `HashSet::clear` empties the set'),
+                   ('external_body tx_buffer_new', 'E1: `TransactionBuffer::default()`, not touched by the contracts'),
+                   ('external_body axiom_arc_clone', 'std: the clone of an Arc is that Arc (needed because vstd specifies Vec::clone element-wise through `cloned`)'),
 
                    ('assume_specification Triple::eq', 'derived PartialEq of Triple is structural'), ('assume_specification HashMap::get_mut', 'std semantics (as in unit TM)'),
                    ('assume_specification Vec::retain', 'std: retain keeps, in order, exactly the elements the predicate accepts'), ('admit axiom_term_keys', 'derived Hash/Eq of Term are lawful')]:
@@ -490,7 +512,58 @@ def build(repo):
         L.body_end('proof { let s = src__@.take(it.index@ + 1); assert(s.drop_last() =~= src__@.take(it.index@ as int)); assert(s.last() == *t); reveal_with_fuel(Seq::filter, 2); }')
         L.after('proof { assert(src__@.take(src__@.len() as int) =~= src__@); lemma_filter_mem(src__@, pm(*pattern)); lemma_filter_nodup(src__@, pm(*pattern)); }')
 
-    u.not_covered += ['RdfStore::{with_config, triples_with_* (Option::cloned on Vec<Arc<_>>), subjects/predicates/objects, clear, stats, transaction buffer (commit_tx/rollback_tx)}', 'the primary FxHashSet<Arc<Triple>> itself (abstract view + assumed std contracts)',
+
+    # ---- with_config: establishes the invariant ----
+    f = u.method(SRC, 'RdfStore', 'with_config').D1().ret('r')
+    f.resub('E3', r'hashbrown::HashMap::with_capacity_and_hasher\(\s*config\.initial_capacity,\s*ahash::RandomState::new\(\),?\s*\)', 'HashMap::with_capacity(config.initial_capacity)', count=3)
+    f.unwrap_call('E3', 'RwLock::new', count=5)
+    f.sub('E3', 'FxHashSet::default()', 'primary_new()')
+    f.sub('E3', 'TransactionBuffer::default()', 'tx_buffer_new()')
+    f.ensures('empty_set', 'r.triples.view() == Set::<Triple>::empty()')
+    f.ensures('store_invariant', 'r.store_wf()')
+    f.ensures('config', 'r.config == config')
+
+    # ---- triples_with_{subject,predicate,object} ----
+    for name, comp_enum, fld in (('subject', 'S', 'subject_index'), ('predicate', 'P', 'predicate_index')):
+        f = u.method(SRC, 'RdfStore', 'triples_with_' + name).D1().ret('r')
+        f.sub('E3', 'let index = self.%s.read();' % fld, 'let index = &self.%s;' % fld)
+        f.requires('wf', 'self.store_wf()')
+        f.ensures('exactly_the_matching_triples', 'forall|x: Arc<Triple>| #[trigger] r@.contains(x) <==> self.triples.view().contains(*x) && (*x).%s == *%s' % (name, name))
+        f.ensures('once_each', 'r@.no_duplicates()')
+        f.body_start('proof { axiom_term_keys(); axiom_arc_clone(); }')
+        f.before_tail('let r__ = ')
+        f.body_end(''';
+proof {
+    let b = bucket(self.%s@, *%s);
+    assert forall|i: int| 0 <= i < b.len() implies r__@[i] == b[i] by { assert(cloned(b[i], r__@[i])); }
+    assert(r__@ =~= b);
+}
+r__''' % (fld, name))
+    f = u.method(SRC, 'RdfStore', 'triples_with_object').D1().ret('r')
+    f.sub('E3', 'let index = self.object_index.read();', 'let index = &self.object_index;')
+    f.resub('E3', r'self\s*\.triples\s*\.read\(\)', 'primary_elems(&self.triples)')
+    f.R21('Arc<Triple>')
+    f.requires('wf', 'self.store_wf()')
+    f.ensures('exactly_the_matching_triples', 'forall|x: Arc<Triple>| #[trigger] r@.contains(x) <==> self.triples.view().contains(*x) && (*x).object == *object')
+    f.ensures('once_each', 'r@.no_duplicates()')
+    f.body_start('proof { axiom_term_keys(); axiom_arc_clone(); }')
+    L = f.loop(0).kind('for').iter('it')
+    L.invariants(('filtered_prefix', 'out__@ == src__@.take(it.index@ as int).filter(comp_is(Comp::O, *object))'),
+                 ('iter', 'it.seq().len() == src__@.len() && forall|k: int| 0 <= k < it.seq().len() ==> *(#[trigger] it.seq()[k]) == src__@[k]'))
+    L.body_end('proof { let s = src__@.take(it.index@ + 1); assert(s.drop_last() =~= src__@.take(it.index@ as int)); assert(s.last() == *t); reveal_with_fuel(Seq::filter, 2); }')
+    L.after('proof { assert(src__@.take(src__@.len() as int) =~= src__@); lemma_filter_mem(src__@, comp_is(Comp::O, *object)); lemma_filter_nodup(src__@, comp_is(Comp::O, *object)); }')
+
+    # ---- clear ----
+    f = u.method(SRC, 'RdfStore', 'clear').D1()
+    f.sub('E3', 'pub fn clear(&self)', 'pub fn clear(&mut self)')
+    f.sub('E3', 'self.triples.write().clear();', 'primary_clear(&mut self.triples);')
+    f.resub('E3', r'self\.(subject_index|predicate_index)\.write\(\)\.clear\(\);', r'self.\1.clear();')
+    f.sub('E3', '= *self.object_index.write()', '= self.object_index')
+    f.requires('wf', 'old(self).store_wf()')
+    f.ensures('empty_set', 'final(self).triples.view() == Set::<Triple>::empty()')
+    f.ensures('store_invariant', 'final(self).store_wf()')
+
+    u.not_covered += ['RdfStore::{new, len, is_empty, triples, subjects/predicates/objects, stats, transaction buffer (insert_in_tx, remove_in_tx, commit_tx, rollback_tx, find_with_pending)}', 'the primary FxHashSet<Arc<Triple>> itself (abstract view + assumed std contracts)',
                       'SPARQL parser / translator / planner_rdf / operators']
     u.assume('E3: locks dropped - one call is one critical section, sequentially')
     return u
